@@ -157,6 +157,44 @@ ContAtoms == {Obj(<<>>), Obj([a |-> IntV(1), b |-> Null]), Obj([a |-> IntV(1), c
 EqPlans == {Call(f, <<a, b>>) : f \in (IF Big THEN {"equal", "==", "eq", "neq", "!="} ELSE {"equal", "neq"}), a \in ContAtoms, b \in ContAtoms}
            \cup (IF Big THEN {Call("equal", <<a, a, b>>) : a \in ContAtoms, b \in ContAtoms} ELSE {})
 
+\* ------------------------------------------------------------------ each with a scratch key: the body sets a NON-result local key for
+\* SOME elements only (inside cond) and reads it afterwards; lists of >= 3 elements where the test holds for an early
+\* element only - an implementation that does not start every iteration from a fresh local context leaks the key
+Flag == P(TRUE, <<C("flag")>>)
+LSrc == P(TRUE, <<C("src")>>)
+ScratchLists == {Arr(<<IntV(3), IntV(1), IntV(2)>>), Arr(<<IntV(1), IntV(2), IntV(3), IntV(1)>>), P(FALSE, <<C("src"), C("b")>>),
+                 Arr(<<S1(97), S1(98), S1(99)>>), Arr(<<Obj([k |-> IntV(3)]), Obj([k |-> IntV(1)]), Obj([k |-> IntV(2)])>>), P(FALSE, <<C("src"), C("ll"), N(0)>>)}
+ScratchTests == {Call("equal", <<LSrc, IntV(3)>>), Call("gt", <<LSrc, IntV(2)>>), Call("equal", <<LSrc, IntV(1)>>), Call("equal", <<LSrc, S1(97)>>),
+                 Call("equal", <<P(TRUE, <<C("src"), C("k")>>), IntV(3)>>), Call("lt", <<LSrc, IntV(2)>>)}
+ScratchBodies(t) == {Call("asm", <<Call("cond", <<Pair(t, Call("set", <<Flag, Bool(TRUE)>>)), Pair(Bool(TRUE), P(TRUE, <<>>))>>), Call("set", <<P(TRUE, <<C("asm")>>), Flag>>)>>),
+                     Call("set", <<P(TRUE, <<C("asm")>>), Call("nth", <<Call("list", <<Call("cond", <<Pair(t, Call("null?", <<Call("set", <<Flag, Bool(TRUE)>>)>>))>>), Flag>>), IntV(1)>>)>>),
+                     Call("asm", <<Call("cond", <<Pair(t, Call("set", <<Flag, LSrc>>)), Pair(Bool(TRUE), P(TRUE, <<>>))>>), Call("set", <<P(TRUE, <<C("asm")>>), Call("list", <<LSrc, Flag>>)>>)>>),
+                     Call("asm", <<Call("cond", <<Pair(t, Call("set", <<P(TRUE, <<C("asm")>>), LSrc>>)), Pair(Bool(TRUE), P(TRUE, <<>>))>>)>>),
+                     Call("asm", <<Call("cond", <<Pair(t, Call("set", <<Flag, Obj([n |-> IntV(1)])>>)), Pair(Bool(TRUE), P(TRUE, <<>>))>>), Call("set", <<P(TRUE, <<C("asm")>>), Call("size", <<Flag>>)>>)>>)}
+ScratchPlans == {Call("each", <<l, b>>) : l \in ScratchLists, b \in UNION {ScratchBodies(t) : t \in ScratchTests}}
+                \cup {Call("each", <<l, Call("asm", <<Call("cond", <<Pair(t, Call("set", <<Flag, Bool(TRUE)>>)), Pair(Bool(TRUE), P(TRUE, <<>>))>>), Call("set", <<P(TRUE, <<C("z")>>), Flag>>)>>), S1(122)>>) :
+                         l \in ScratchLists, t \in ScratchTests}
+                \cup {Call("each", <<Arr(<<Arr(<<IntV(3), IntV(1)>>), Arr(<<IntV(2), IntV(3), IntV(2)>>)>>), Call("set", <<P(TRUE, <<C("asm")>>), Call("each", <<LSrc, b>>)>>)>>) :
+                         b \in ScratchBodies(Call("equal", <<LSrc, IntV(3)>>))}
+
+\* ------------------------------------------------------------------ nested container literals (depth 2 and 3, map in list, list in
+\* map) that are stored and then modified IN PLACE at the nested level: inside each (results must not share the
+\* literal) and at top level across the two Execute calls of a case (the plan's literal must not change)
+NestLits == {<<Obj([id |-> IntV(0), tags |-> Obj([n |-> IntV(0)])]), <<C("tags"), C("n")>>>>,
+             <<Arr(<<Arr(<<IntV(0)>>)>>), <<N(0), N(0)>>>>,
+             <<Obj([a |-> Arr(<<Obj([n |-> IntV(0)])>>)]), <<C("a"), N(0), C("n")>>>>,
+             <<Arr(<<Obj([m |-> Obj([n |-> IntV(0)])])>>), <<N(0), C("m"), C("n")>>>>,
+             <<Obj([x |-> Obj([y |-> Obj([z |-> IntV(0)])])]), <<C("x"), C("y"), C("z")>>>>,
+             <<Arr(<<IntV(7), Arr(<<IntV(8), Arr(<<IntV(0)>>)>>)>>), <<N(1), N(1), N(0)>>>>}
+NestPlans == {Call("each", <<l, Call("asm", <<Call("set", <<P(TRUE, <<C("asm")>>), nl[1]>>), Call("set", <<P(TRUE, <<C("asm")>> \o nl[2]), LSrc>>)>>)>>) :
+                 l \in {Arr(<<IntV(3), IntV(1), IntV(2)>>), P(FALSE, <<C("src"), C("b")>>)}, nl \in NestLits}
+             \cup {Call("asm", <<Call("set", <<P(FALSE, <<C("asm")>>), nl[1]>>), Call("set", <<P(FALSE, <<C("asm")>> \o nl[2]), v>>)>>) :
+                     nl \in NestLits, v \in {P(FALSE, <<C("src"), C("a")>>), Call("sum", <<P(FALSE, <<C("asm")>> \o nl[2]), P(FALSE, <<C("src"), C("a")>>)>>)}}
+             \cup {Call("asm", <<Call("set", <<P(FALSE, <<C("asm"), C("x")>>), nl[1]>>), Call("set", <<P(FALSE, <<C("asm"), C("y")>>), nl[1]>>),
+                                  Call("set", <<P(FALSE, <<C("asm"), C("x")>> \o nl[2]), P(FALSE, <<C("src"), C("a")>>)>>)>>) : nl \in NestLits}
+             \cup {Call("set", <<P(FALSE, <<C("asm")>>), Call("each", <<Arr(<<IntV(1), IntV(2), IntV(3)>>), Call("asm", <<Call("set", <<P(TRUE, <<C("asm")>>), nl[1]>>),
+                                  Call("set", <<P(TRUE, <<C("asm")>> \o nl[2]), Call("sum", <<P(TRUE, <<C("asm")>> \o nl[2]), LSrc>>)>>)>>)>>)>>) : nl \in NestLits}
+
 \* ------------------------------------------------------------------ families
 Both(ps, r) == {Case(Wrapped(p), r, FALSE) : p \in ps} \cup {Case(p, r, FALSE) : p \in ps}
 Cases ==
@@ -171,6 +209,8 @@ Cases ==
     [] Part = "refs" -> {Case(Wrapped(p), R1, FALSE) : p \in RefPlans}
     [] Part = "computed" -> Both(ComputedPlans, R1)
     [] Part = "eqcont" -> {Case(Wrapped(p), R1, FALSE) : p \in EqPlans}
+    [] Part = "scratch" -> Both(ScratchPlans, R1)
+    [] Part = "nestlit" -> Both(NestPlans, R1)
     [] Part = "forms" -> Both(CondPlans \cup SortPlans \cup EachPlans, R1) \cup Both(SortPlans, R3)
     [] OTHER -> {}
 
